@@ -240,9 +240,18 @@ class Env:
         self.dir = tempfile.mkdtemp(prefix='c04_')
         self.ledger = Ledger({'db': Database(os.path.join(self.dir, 'b.db')), 'headers': Headers(':memory:')})
         loop.run_until_complete(self.ledger.db.open())
-        self.account = Account.from_dict(self.ledger, Wallet(), {
+        self.wallet = Wallet()
+        self.account = Account.from_dict(self.ledger, self.wallet, {
             'seed': 'carbon smart garage balance margin twelve chest sword toast envelope bottom stomach absent'})
         loop.run_until_complete(self.account.ensure_address_gap())
+        # a second, non-default account in the same wallet (account_send --account_id, account_fund between accounts)
+        self.account2 = Account.from_dict(self.ledger, self.wallet, {
+            'seed': 'legal winner thank year wave sausage worth useful legal winner thank yellow'})
+        loop.run_until_complete(self.account2.ensure_address_gap())
+        assert self.wallet.accounts == [self.account, self.account2], 'both accounts must be in one wallet'
+        addresses2 = (loop.run_until_complete(self.account2.receiving.get_addresses())[:4] +
+                      loop.run_until_complete(self.account2.change.get_addresses())[:2])
+        self.hashes2 = [self.ledger.address_to_hash160(a) for a in addresses2]
         # receiving AND change addresses: the same derivation index exists on both chains
         self.addresses = (loop.run_until_complete(self.account.receiving.get_addresses())[:8] +
                           loop.run_until_complete(self.account.change.get_addresses()))
@@ -274,10 +283,14 @@ def check_input_signatures(run, model, env, rng, idx, boundary=None, boundary_le
     if boundary == 'n-outputs':
         n_out = boundary_len
     ins, spent, spent_scripts = [], [], []
+    second_account = False
     for j in range(n_in):
         pkh = rng.choice(env.hashes)
         if n_in >= 2 and j < 2 and rng.random() < 0.5:
             pkh = env.hashes[0] if j == 0 else env.hashes[8]     # receiving #0 and change #0 in one session
+        elif rng.random() < 0.3:
+            pkh = rng.choice(env.hashes2)                         # an output of the wallet's SECOND account
+            second_account = True
         txo = funding_output(rng, rng.randrange(10 ** 5, 10 ** 10), pkh, rng.choice([0, 0, 1, 2, 7]),
                              claim_script_len=(boundary_len if (boundary == 'spent-script' and j == 0) else None))
         ins.append(Input.spend(txo))
@@ -329,7 +342,9 @@ def check_input_signatures(run, model, env, rng, idx, boundary=None, boundary_le
     if rng.random() < 0.3:
         for txi in tx.inputs:
             txi.sequence = rng.choice([0, 1, 0xfffffffe, 0xffffffff])
-    env.loop.run_until_complete(tx.sign([env.account]))
+    env.loop.run_until_complete(tx.sign([env.account, env.account2] if second_account else [env.account]))
+    if second_account:
+        run.count('spends-second-account')
     raw = tx.raw
     case = {'kind': 'input-signatures', 'index': idx, 'raw': raw.hex(), 'spent_pubkey_hashes': [h.hex() for h in spent]}
     try:
